@@ -85,7 +85,11 @@ func (f *g2lFn) calleeName(e *ast.CallExpr) (pkg, name string, obj types.Object)
 func (f *g2lFn) args(b *binds, e *ast.CallExpr) []string {
 	out := []string{}
 	sig, _ := f.typeOf(e.Fun).Underlying().(*types.Signature)
-	if sig != nil && sig.Variadic() && !e.Ellipsis.IsValid() && f.calleeGoName(e) != "" {
+	isClosureCall := false
+	if id, ok := e.Fun.(*ast.Ident); ok {
+		_, isClosureCall = f.closures[f.p.info.Uses[id]]
+	}
+	if sig != nil && sig.Variadic() && !e.Ellipsis.IsValid() && (f.calleeGoName(e) != "" || isClosureCall) {
 		// f(a, b, c) for a translated f(a T, rest ...U): the trailing arguments are the slice `rest`
 		n := sig.Params().Len() - 1
 		for i := 0; i < n && i < len(e.Args); i++ {
@@ -94,6 +98,12 @@ func (f *g2lFn) args(b *binds, e *ast.CallExpr) []string {
 		st := sig.Params().At(n).Type().(*types.Slice)
 		parts := []string{}
 		for i := n; i < len(e.Args); i++ {
+			if f.u.anyType == "Unit" && f.leanType(st.Elem(), e) == "Unit" {
+				// a value passed as interface{} only to be formatted: evaluated (it may panic), then forgotten
+				_ = f.expr(b, e.Args[i])
+				parts = append(parts, "()")
+				continue
+			}
 			parts = append(parts, f.exprAs(b, e.Args[i], st.Elem()))
 		}
 		return append(out, "(["+strings.Join(parts, ", ")+"] : "+f.leanType(st, e)+")")
@@ -102,6 +112,13 @@ func (f *g2lFn) args(b *binds, e *ast.CallExpr) []string {
 		var want types.Type
 		if sig != nil && i < sig.Params().Len() && !(sig.Variadic() && i >= sig.Params().Len()-1) {
 			want = sig.Params().At(i).Type()
+			if f.isViewObj(sig.Params().At(i)) {
+				if ue, ok := a.(*ast.UnaryExpr); ok && ue.Op == token.AND {
+					a = ue.X
+				}
+				out = append(out, f.viewOf(b, a))
+				continue
+			}
 		}
 		out = append(out, f.exprAs(b, a, want))
 	}
@@ -292,6 +309,16 @@ func (f *g2lFn) call(b *binds, e *ast.CallExpr) string {
 		}
 	}
 	if id, ok := e.Fun.(*ast.Ident); ok {
+		if v, ok := f.p.info.Uses[id].(*types.Var); ok {
+			if n, ok := v.Type().(*types.Named); ok {
+				if _, isOpt := f.u.optFuncs[n.Obj().Name()]; isOpt {
+					// fix(path, vers) for a function value that may be nil: calling nil panics
+					return f.bindM(b, fmt.Sprintf("(match %s with | some g => pure (g %s) | none => throw Err.panic)", f.varName(v), strings.Join(f.args(b, e), " ")))
+				}
+			}
+		}
+	}
+	if id, ok := e.Fun.(*ast.Ident); ok {
 		if v, ok := f.p.info.Uses[id].(*types.Var); ok && f.isWorldFnVar(v) {
 			// less(a, b) where less holds one of the package's world functions
 			f.needWorld(e)
@@ -346,6 +373,10 @@ func (f *g2lFn) call(b *binds, e *ast.CallExpr) string {
 	if _, ok := obj.(*types.Builtin); ok {
 		switch name {
 		case "len":
+			if v, ok := f.viewVar(e.Args[0]); ok {
+				f.needWorld(e)
+				return f.bindM(b, fmt.Sprintf("TokRef.len %s world", v))
+			}
 			return "(len " + f.expr(b, e.Args[0]) + ")"
 		case "append":
 			base := f.expr(b, e.Args[0])
@@ -528,6 +559,15 @@ func (f *g2lFn) call(b *binds, e *ast.CallExpr) string {
 					}
 				}
 				return fmt.Sprintf("(some %s)", tv.Value.ExactString())
+			}
+			if isString(f.typeOf(e.Args[0])) {
+				// the format is a variable (errorf := func(format string, args ...interface{}) { … fmt.Errorf(format, args...) }):
+				// the message is still identified by its format; the arguments are evaluated (they may panic) and dropped
+				fm := f.expr(b, e.Args[0])
+				for _, a := range e.Args[1:] {
+					_ = f.expr(b, a)
+				}
+				return fmt.Sprintf("(some (bytesToStr %s))", fm)
 			}
 		}
 	}
@@ -1259,7 +1299,14 @@ func (f *g2lFn) assignedOuter(nodes []ast.Node, before token.Pos) []*types.Var {
 							}
 							if n2, ok := rt.(*types.Named); ok {
 								if _, ok := f.u.inout[n2.Obj().Name()+"."+sel.Sel.Name]; ok {
-									add(id)
+									if callee, ok := g2l.fns[f.u.pkgDir+"."+n2.Obj().Name()+"."+sel.Sel.Name]; ok && callee.inoutIdx > 0 {
+										// the in-out parameter is not the receiver: f.add(&errs, …)
+										if callee.inoutIdx-1 < len(n.Args) {
+											add(n.Args[callee.inoutIdx-1])
+										}
+									} else {
+										add(id)
+									}
 								}
 							}
 						}
@@ -1572,6 +1619,15 @@ func (f *g2lFn) assignOne(lines *[]string, lhs ast.Expr, term string, lt types.T
 		}
 		*lines = append(*lines, fmt.Sprintf("let %s := %s", f.name(base), val))
 	case *ast.IndexExpr:
+		if v, ok := f.viewVar(l.X); ok {
+			var b binds
+			i := f.expr(&b, l.Index)
+			*lines = append(*lines, b.lines...)
+			f.needWorld(lhs)
+			f.pure = false
+			*lines = append(*lines, fmt.Sprintf("let world ← TokRef.set %s %s %s world", v, i, term))
+			return
+		}
 		base, ok := l.X.(*ast.Ident)
 		if !ok {
 			// general case (x.list[i] = v): the updated list is assigned to x.list
@@ -1717,16 +1773,25 @@ func (f *g2lFn) simple(s ast.Stmt) []string {
 			if id, ok := s.Lhs[0].(*ast.Ident); !ok || id.Name != "_" {
 				want = f.typeOf(s.Lhs[0])
 			}
-			t := f.exprAs(&b, s.Rhs[0], want)
+			var t string
+			if _, isV := f.viewVar(s.Lhs[0]); isV {
+				t = f.viewOf(&b, s.Rhs[0])
+			} else {
+				t = f.exprAs(&b, s.Rhs[0], want)
+			}
 			lines = append(lines, b.lines...)
 			f.assignOne(&lines, s.Lhs[0], t, nil)
 			return lines
 		}
 		// parallel assignment: evaluate all right-hand sides first
 		tmps := []string{}
-		for _, r := range s.Rhs {
+		for i, r := range s.Rhs {
 			var b binds
-			t := f.expr(&b, r)
+			var want types.Type
+			if id, ok := s.Lhs[i].(*ast.Ident); !ok || id.Name != "_" {
+				want = f.typeOf(s.Lhs[i])
+			}
+			t := f.exprAs(&b, r, want)
 			lines = append(lines, b.lines...)
 			tmp := f.fresh("a")
 			lines = append(lines, fmt.Sprintf("let %s := %s", tmp, t))
